@@ -578,7 +578,14 @@ func (fr *Frame) convert(x *ssa.Convert, pc *string, st *State) {
 		ref := fr.alloc(st)
 		h := d.sliceHeap(types.Typ[types.Uint8])
 		arr := vc.fresh("bytes", "(Array Int Int)")
-		ln := vc.fresh("byteslen", "Int")
+		// len([]byte(s)) == len(s): Go strings are byte sequences
+		var ln string
+		if fs == "String" {
+			ln = vc.define("byteslen", "Int", fmt.Sprintf("(str.len %s)", a))
+		} else {
+			d.strUFDecls()
+			ln = vc.define("byteslen", "Int", fmt.Sprintf("(strlen %s)", a))
+		}
 		vc.stSet(st, h, fmt.Sprintf("(store %s %s %s)", vc.stGet(st, h), ref, arr))
 		sl := fmt.Sprintf("(mk-slice %s 0 %s %s)", ref, ln, ln)
 		fr.vals[x] = []string{sl}
